@@ -29,6 +29,8 @@ def cases(tier, cfg, seed):
             types = ['double', 'int'] if tier == 'quick' else ALLT
             if tier == 'quick' and (n + pi) % 3 == 0: types = ['float', 'long']
             for T in types: add(Ein(T, [la, lb], ext))
+        if n % 2 == 0: add(Ein('float', [la, lb], assign_extents([la, lb], [3, 2, 8, 2, 8, 3])))
+    if any(m.startswith('CONTRACT_OPT') for m in cfg.macros): out = out[::3]
     # contraction<>, inner, outer, single-tensor einsum, explicit output order
     for T in (['double', 'float', 'int'] if tier == 'quick' else ALLT):
         add(Ein(T, [[0, 1], [1, 2]], {0: 3, 1: 4, 2: 5}, tag='ct', fname='contraction'))
@@ -49,7 +51,7 @@ def cases(tier, cfg, seed):
 
 def cfgs(tier):
     c = main_cfgs(tier)
-    if tier == 'quick': return c + [Cfg('avx2', 14, 'O2')]
+    if tier == 'quick': return c + [Cfg('avx2', 14, 'O2'), Cfg('avx2', 17, 'O2', ('CONTRACT_OPT=-1',))]
     return c + [Cfg(i, 14, 'O2') for i in build.MAIN_ISAS] + [Cfg('avx2', 17, 'O2', (f'CONTRACT_OPT={v}',)) for v in (-1, 1, 2)]
 
 
